@@ -2,13 +2,23 @@
 # run.sh <property-id> [quick|thorough]   — entry point of every registered check.
 # Rebuilds the harness from /repo's current working tree, runs it, exit status as required by MANIFEST.
 # run.sh replay <file>                    — re-executes a replay artefact.
+# Development aids (never used by registered commands): VERIF_REPO=<dir> checks another gogu tree
+# (e.g. a scratch worktree with a seeded change) and VERIF_OUT=<dir> keeps binaries, scratch files,
+# evidence and replays of such a run out of /verif.
 cd "$(dirname "$0")" || exit 2
 export GOFLAGS=-mod=mod GOPROXY=off GOSUMDB=off GOTOOLCHAIN=local
 export VERIF_ROOT="$(pwd)"
+export VERIF_REPO="${VERIF_REPO:-/repo}"
+export VERIF_OUT="${VERIF_OUT:-$VERIF_ROOT}"
 id=$1
 tier=${2:-${VERIF_TIER:-quick}}
 export VERIF_TIER=$tier
-mkdir -p bin evidence replays
+mkdir -p "$VERIF_OUT/bin" "$VERIF_OUT/evidence" "$VERIF_OUT/replays"
+export VERIF_MODFLAG=""
+if [ "$VERIF_REPO" != /repo ]; then
+  sed "s|=> /repo|=> $VERIF_REPO|" go.mod > "$VERIF_OUT/go.mod" && cp go.sum "$VERIF_OUT/go.sum" || exit 2
+  export VERIF_MODFLAG="-modfile=$VERIF_OUT/go.mod"
+fi
 
 engine_of() {
   case $1 in
@@ -22,8 +32,8 @@ engine_of() {
 
 build() { # $1 = engine
   case $1 in
-    seq) go build -o bin/seq ./props/seq ;;
-    pure) tools/build_overlay.sh pure || { echo "NOTE: overlay build failed; falling back to the plain build (no map-order/rand seams)" >&2; go build -o bin/pure ./props/pure; } ;;
+    seq) go build $VERIF_MODFLAG -o "$VERIF_OUT/bin/seq" ./props/seq ;;
+    pure) tools/build_overlay.sh pure || { echo "NOTE: overlay build failed; falling back to the plain build (no map-order/rand seams)" >&2; go build $VERIF_MODFLAG -o "$VERIF_OUT/bin/pure" ./props/pure; } ;;
     *) tools/build_overlay.sh "$1" ;;
   esac
 }
@@ -33,10 +43,10 @@ if [ "$id" = replay ]; then
   prop=$(python3 -c "import json,sys;print(json.load(open(sys.argv[1]))['property'])" "$file") || exit 2
   eng=$(engine_of "$prop")
   build "$eng" || { echo "build failed" >&2; exit 2; }
-  exec bin/$eng replay "$file"
+  exec "$VERIF_OUT/bin/$eng" replay "$file"
 fi
 
 eng=$(engine_of "$id")
 [ "$eng" = none ] && { echo "unknown property $id" >&2; exit 2; }
 build "$eng" || { echo "BUILD-FAILED engine=$eng (exit 2: the machinery could not be built against the current tree)" >&2; exit 2; }
-exec bin/$eng "$id"
+exec "$VERIF_OUT/bin/$eng" "$id"
